@@ -51,7 +51,8 @@ fn classify_panic(msg: &str) -> &'static str {
     let m = msg;
     if m.contains("char boundary") {
         "char-boundary"
-    } else if m.contains("out of range") || m.contains("out of bounds") || m.contains("slice index") {
+    } else if m.contains("out of range") || m.contains("out of bounds") || m.contains("slice index")
+    {
         "slice-range"
     } else if m.contains("unwrap()` on a `None`") {
         "unwrap-none"
@@ -122,14 +123,19 @@ pub fn guard<T>(f: impl FnOnce() -> T) -> LibResult<T> {
     match std::panic::catch_unwind(std::panic::AssertUnwindSafe(f)) {
         Ok(v) => Ok(v),
         Err(_) => {
-            let p = LAST_PANIC.with(|c| c.borrow_mut().take()).unwrap_or(PanicInfo {
-                msg: "?".into(),
-                location: "?".into(),
-                lib_frame: "?".into(),
-                kind: "other".into(),
-            });
+            let p = LAST_PANIC
+                .with(|c| c.borrow_mut().take())
+                .unwrap_or(PanicInfo {
+                    msg: "?".into(),
+                    location: "?".into(),
+                    lib_frame: "?".into(),
+                    kind: "other".into(),
+                });
             if p.location.contains("harness/src") {
-                eprintln!("fatal: panic inside the harness itself: {} at {}", p.msg, p.location);
+                eprintln!(
+                    "fatal: panic inside the harness itself: {} at {}",
+                    p.msg, p.location
+                );
                 std::process::exit(2);
             }
             Err(LibErr::Panic(p))
@@ -153,6 +159,8 @@ pub struct FieldVal {
     pub swift: String,
     pub json: Value,
     pub variant_tag: Option<&'static str>,
+    /// `{:?}` of the value (shows what serde hides, e.g. the full year of a date serialised as YYMMDD)
+    pub debug: String,
 }
 
 impl FieldVal {
@@ -177,14 +185,21 @@ fn field_val<F: SwiftField>(f: &F) -> FieldVal {
         swift: f.to_swift_string(),
         json: serde_json::to_value(f).unwrap_or(Value::String("<<serde error>>".into())),
         variant_tag: f.get_variant_tag(),
+        debug: format!("{:?}", f),
     }
 }
 
 fn f_parse<F: SwiftField>(s: &str) -> LibResult<FieldVal> {
     flat(guard(|| F::parse(s).map(|f| field_val(&f))))
 }
-fn f_parse_variant<F: SwiftField>(s: &str, v: Option<&str>, t: Option<&str>) -> LibResult<FieldVal> {
-    flat(guard(|| F::parse_with_variant(s, v, t).map(|f| field_val(&f))))
+fn f_parse_variant<F: SwiftField>(
+    s: &str,
+    v: Option<&str>,
+    t: Option<&str>,
+) -> LibResult<FieldVal> {
+    flat(guard(|| {
+        F::parse_with_variant(s, v, t).map(|f| field_val(&f))
+    }))
 }
 fn f_from_json<F: SwiftField>(v: &Value) -> LibResult<FieldVal> {
     match guard(|| serde_json::from_value::<F>(v.clone()).map(|f| field_val(&f))) {
@@ -313,7 +328,10 @@ fn val_errs(r: &swift_mt_message::ValidationResult) -> Vec<(String, String)> {
             swift_mt_message::ValidationError::BusinessRuleValidation { rule_name, message } => {
                 (rule_name.clone(), message.clone())
             }
-            other => (format!("<{}>", variant_name_validation(other)), other.to_string()),
+            other => (
+                format!("<{}>", variant_name_validation(other)),
+                other.to_string(),
+            ),
         })
         .collect()
 }
@@ -371,20 +389,26 @@ fn m_parse_full<T: SwiftMessageBody>(s: &str) -> LibResult<FullVal> {
 }
 fn m_parse_with_errors<T: SwiftMessageBody>(s: &str) -> LibResult<Option<FullVal>> {
     flat(guard(|| {
-        SwiftParser::new().parse_with_errors::<T>(s).map(|r| match r {
-            swift_mt_message::ParseResult::Success(m) => Some(full_val(&m)),
-            _ => None,
-        })
+        SwiftParser::new()
+            .parse_with_errors::<T>(s)
+            .map(|r| match r {
+                swift_mt_message::ParseResult::Success(m) => Some(full_val(&m)),
+                _ => None,
+            })
     }))
 }
-fn m_body_from_json<T: SwiftMessageBody + serde::de::DeserializeOwned>(v: &Value) -> LibResult<BodyVal> {
+fn m_body_from_json<T: SwiftMessageBody + serde::de::DeserializeOwned>(
+    v: &Value,
+) -> LibResult<BodyVal> {
     match guard(|| serde_json::from_value::<T>(v.clone()).map(|b| body_val(&b))) {
         Ok(Ok(f)) => Ok(f),
         Ok(Err(e)) => Err(LibErr::Json(e.to_string())),
         Err(e) => Err(e),
     }
 }
-fn m_full_from_json<T: SwiftMessageBody + serde::de::DeserializeOwned>(v: &Value) -> LibResult<FullVal> {
+fn m_full_from_json<T: SwiftMessageBody + serde::de::DeserializeOwned>(
+    v: &Value,
+) -> LibResult<FullVal> {
     match guard(|| serde_json::from_value::<SwiftMessage<T>>(v.clone()).map(|b| full_val(&b))) {
         Ok(Ok(f)) => Ok(f),
         Ok(Err(e)) => Err(LibErr::Json(e.to_string())),
@@ -423,7 +447,9 @@ msg_ops! {
 }
 
 pub fn msg_ops(mt: &str) -> &'static MsgOps {
-    MSGS.iter().find(|m| m.mt == mt).unwrap_or_else(|| panic!("unknown mt {mt}"))
+    MSGS.iter()
+        .find(|m| m.mt == mt)
+        .unwrap_or_else(|| panic!("unknown mt {mt}"))
 }
 
 pub fn msg_index(mt: &str) -> usize {
@@ -489,12 +515,21 @@ pub struct PluginOut {
     pub metadata: Value,
 }
 
-fn run_handler(h: &dyn AsyncFunctionHandler, name: &str, payload: Value, data: Value, input: Value) -> LibResult<PluginOut> {
+fn run_handler(
+    h: &dyn AsyncFunctionHandler,
+    name: &str,
+    payload: Value,
+    data: Value,
+    input: Value,
+) -> LibResult<PluginOut> {
     let r = guard(|| {
         let mut msg = Message::from_value(&payload);
         if let Some(obj) = data.as_object() {
             for (k, v) in obj {
-                msg.data_mut().as_object_mut().unwrap().insert(k.clone(), v.clone());
+                msg.data_mut()
+                    .as_object_mut()
+                    .unwrap()
+                    .insert(k.clone(), v.clone());
             }
         }
         msg.invalidate_context_cache();
@@ -526,7 +561,10 @@ pub fn plugin_parse(mt_text: &str) -> LibResult<(Value, Value)> {
         serde_json::json!({"src": mt_text}),
         serde_json::json!({"source":"src","target":"dst"}),
     )?;
-    Ok((out.data.get("dst").cloned().unwrap_or(Value::Null), out.metadata.get("dst").cloned().unwrap_or(Value::Null)))
+    Ok((
+        out.data.get("dst").cloned().unwrap_or(Value::Null),
+        out.metadata.get("dst").cloned().unwrap_or(Value::Null),
+    ))
 }
 
 /// publish_mt: JSON in data.src (must carry message_type) -> MT text
@@ -574,18 +612,47 @@ pub fn plugin_generate(scenario: &Value) -> LibResult<Value> {
 pub fn header_parse(kind: u8, text: &str) -> LibResult<(String, Value)> {
     use swift_mt_message::headers::*;
     flat(guard(|| match kind {
-        1 => BasicHeader::parse(text).map(|h| (h.to_string(), serde_json::to_value(&h).unwrap_or(Value::Null))),
-        2 => ApplicationHeader::parse(text).map(|h| (h.to_string(), serde_json::to_value(&h).unwrap_or(Value::Null))),
-        3 => UserHeader::parse(text).map(|h| (h.to_string(), serde_json::to_value(&h).unwrap_or(Value::Null))),
-        _ => Trailer::parse(text).map(|h| (h.to_string(), serde_json::to_value(&h).unwrap_or(Value::Null))),
+        1 => BasicHeader::parse(text).map(|h| {
+            (
+                h.to_string(),
+                serde_json::to_value(&h).unwrap_or(Value::Null),
+            )
+        }),
+        2 => ApplicationHeader::parse(text).map(|h| {
+            (
+                h.to_string(),
+                serde_json::to_value(&h).unwrap_or(Value::Null),
+            )
+        }),
+        3 => UserHeader::parse(text).map(|h| {
+            (
+                h.to_string(),
+                serde_json::to_value(&h).unwrap_or(Value::Null),
+            )
+        }),
+        _ => Trailer::parse(text).map(|h| {
+            (
+                h.to_string(),
+                serde_json::to_value(&h).unwrap_or(Value::Null),
+            )
+        }),
     }))
 }
 
 /// JSON -> header -> (Display, JSON)
 pub fn header_from_json(kind: u8, v: &Value) -> LibResult<(String, Value)> {
     use swift_mt_message::headers::*;
-    fn conv<H: serde::de::DeserializeOwned + serde::Serialize + std::fmt::Display>(v: &Value) -> Result<(String, Value), String> {
-        serde_json::from_value::<H>(v.clone()).map(|h| (h.to_string(), serde_json::to_value(&h).unwrap_or(Value::Null))).map_err(|e| e.to_string())
+    fn conv<H: serde::de::DeserializeOwned + serde::Serialize + std::fmt::Display>(
+        v: &Value,
+    ) -> Result<(String, Value), String> {
+        serde_json::from_value::<H>(v.clone())
+            .map(|h| {
+                (
+                    h.to_string(),
+                    serde_json::to_value(&h).unwrap_or(Value::Null),
+                )
+            })
+            .map_err(|e| e.to_string())
     }
     let r = guard(|| match kind {
         1 => conv::<BasicHeader>(v),
@@ -613,7 +680,9 @@ fn to_hash(m: &FMap) -> HashMap<String, Vec<(String, usize)>> {
 }
 
 pub fn block4_fields(text: &str) -> LibResult<FMap> {
-    flat(guard(|| swift_mt_message::parser::parse_block4_fields(text).map(to_btree)))
+    flat(guard(|| {
+        swift_mt_message::parser::parse_block4_fields(text).map(to_btree)
+    }))
 }
 
 pub fn normalize_tag(raw: &str) -> LibResult<String> {
@@ -634,7 +703,9 @@ pub enum TrackerOp {
 pub type TrackerRes = Option<(String, String, usize)>;
 
 pub fn run_tracker(map: &FMap, ops: &[TrackerOp]) -> LibResult<Vec<TrackerRes>> {
-    use swift_mt_message::parser::{FieldConsumptionTracker, find_field_with_variant_sequential_constrained};
+    use swift_mt_message::parser::{
+        FieldConsumptionTracker, find_field_with_variant_sequential_constrained,
+    };
     guard(|| {
         let h = to_hash(map);
         let mut tr = FieldConsumptionTracker::new();
@@ -642,20 +713,35 @@ pub fn run_tracker(map: &FMap, ops: &[TrackerOp]) -> LibResult<Vec<TrackerRes>> 
         for op in ops {
             match op {
                 TrackerOp::Peek(tag) => {
-                    let r = h.get(tag).and_then(|vals| tr.get_next_available(tag, vals)).map(|(v, p)| (tag.clone(), v.to_string(), p));
+                    let r = h
+                        .get(tag)
+                        .and_then(|vals| tr.get_next_available(tag, vals))
+                        .map(|(v, p)| (tag.clone(), v.to_string(), p));
                     out.push(r);
                 }
                 TrackerOp::Take(tag) => {
-                    let r = h.get(tag).and_then(|vals| tr.get_next_available(tag, vals)).map(|(v, p)| (tag.clone(), v.to_string(), p));
+                    let r = h
+                        .get(tag)
+                        .and_then(|vals| tr.get_next_available(tag, vals))
+                        .map(|(v, p)| (tag.clone(), v.to_string(), p));
                     if let Some((_, _, p)) = &r {
                         tr.mark_consumed(tag, *p);
                     }
                     out.push(r);
                 }
                 TrackerOp::Find(base, cons) => {
-                    let cv: Option<Vec<&str>> = cons.as_ref().map(|v| v.iter().map(|s| s.as_str()).collect());
-                    let r = find_field_with_variant_sequential_constrained(&h, base, &mut tr, cv.as_deref());
-                    out.push(r.map(|(v, variant, p)| (format!("{}{}", base, variant.unwrap_or_default()), v, p)));
+                    let cv: Option<Vec<&str>> = cons
+                        .as_ref()
+                        .map(|v| v.iter().map(|s| s.as_str()).collect());
+                    let r = find_field_with_variant_sequential_constrained(
+                        &h,
+                        base,
+                        &mut tr,
+                        cv.as_deref(),
+                    );
+                    out.push(r.map(|(v, variant, p)| {
+                        (format!("{}{}", base, variant.unwrap_or_default()), v, p)
+                    }));
                 }
             }
         }
@@ -663,11 +749,26 @@ pub fn run_tracker(map: &FMap, ops: &[TrackerOp]) -> LibResult<Vec<TrackerRes>> 
     })
 }
 
-pub fn split_sequences(map: &FMap, marker: &str, c_fields: &[String], has_c: bool) -> LibResult<(FMap, FMap, FMap)> {
+pub fn split_sequences(
+    map: &FMap,
+    marker: &str,
+    c_fields: &[String],
+    has_c: bool,
+) -> LibResult<(FMap, FMap, FMap)> {
     use swift_mt_message::parser::{SequenceConfig, split_into_sequences};
     flat(guard(|| {
-        let cfg = SequenceConfig { sequence_b_marker: marker.to_string(), sequence_c_fields: c_fields.to_vec(), has_sequence_c: has_c };
-        split_into_sequences(&to_hash(map), &cfg).map(|p| (to_btree(p.sequence_a), to_btree(p.sequence_b), to_btree(p.sequence_c)))
+        let cfg = SequenceConfig {
+            sequence_b_marker: marker.to_string(),
+            sequence_c_fields: c_fields.to_vec(),
+            has_sequence_c: has_c,
+        };
+        split_into_sequences(&to_hash(map), &cfg).map(|p| {
+            (
+                to_btree(p.sequence_a),
+                to_btree(p.sequence_b),
+                to_btree(p.sequence_c),
+            )
+        })
     }))
 }
 
@@ -677,7 +778,10 @@ pub fn sequence_config(mt: &str) -> (String, Vec<String>, bool) {
 }
 
 pub fn repetitive_sequence(map: &FMap, marker: &str) -> LibResult<Vec<FMap>> {
-    flat(guard(|| swift_mt_message::parser::parse_repetitive_sequence::<MT101>(&to_hash(map), marker).map(|v| v.into_iter().map(to_btree).collect())))
+    flat(guard(|| {
+        swift_mt_message::parser::parse_repetitive_sequence::<MT101>(&to_hash(map), marker)
+            .map(|v| v.into_iter().map(to_btree).collect())
+    }))
 }
 
 // ---------------------------------------------------------------- error rendering
